@@ -20,6 +20,10 @@ def oracle(chk, world, r, case):
         return
     log = b.vlog
     att = log["attempts"]
+    if -1 in att:
+        chk.failure("%d components that are not part of the evaluated graph (they belong to other graphs of the process) were attempted"
+                    % att.count(-1), case)
+        att = [c for c in att if c != -1]
     if len(att) != len(set(att)):
         chk.failure("a component was attempted twice: %s" % att, case)
     bodies = {}
@@ -53,6 +57,10 @@ def oracle(chk, world, r, case):
             chk.failure("seeded component %d was recomputed" % cid, case)
 
 
+class _Ctx(object):
+    pass
+
+
 def incremental(world, seeds, ss, graph, mode, pool_seed=0):
     """sub-graph after sub-graph on ONE broker: serially (run_incremental) or through run_all on a pool that starts
     every task only after all of them were submitted (tasks run in a PRNG-chosen order)"""
@@ -66,6 +74,12 @@ def incremental(world, seeds, ss, graph, mode, pool_seed=0):
         g = dict((k, set(v)) for k, v in graph.items())
         if mode == "pooled":
             dr.run_all(g, b, W.DeferPool(random.Random(pool_seed)))
+        elif mode in ("entry-parallel", "entry-serial"):
+            import insights
+            out = insights._run(b, graph=g, root=None, context=_Ctx, parallel=(mode == "entry-parallel"))
+            b.instances.pop(_Ctx, None)
+            if out is not b:
+                raise AssertionError("insights._run returned %r instead of the broker it was given" % (type(out),))
         else:
             list(dr.run_incremental(g, b))
     except Exception as ex:
@@ -134,7 +148,7 @@ def run(chk):
         if idx % 5 in (2, 3):
             # sub-graph after sub-graph on ONE broker (serially, and through run_all on a deferring pool): still at most
             # once per component, nothing outside the graph, the declared edges untouched
-            for mode in ("incremental", "pooled"):
+            for mode in ("incremental", "pooled", "entry-parallel", "entry-serial"):
                 icase = {"spec": W.strip(spec), "seeds": seeds, "targets": targets, "order": None, "store_skips": ss,
                          "dropped": dropped, "mode": mode, "pool_seed": idx}
                 att, why, err = incremental(world, seeds, ss, graph, mode, idx)
@@ -151,7 +165,7 @@ def run(chk):
                 if mode == "incremental":
                     serial_att = sorted(att)
                 elif err is None and sorted(att) != serial_att:
-                    chk.failure("pooled evaluation attempted %s, the serial evaluation of the same sub-graphs attempted %s" % (sorted(att), serial_att), icase)
+                    chk.failure("%s evaluation attempted %s, the serial evaluation of the same sub-graphs attempted %s" % (mode, sorted(att), serial_att), icase)
             chk.count("incremental-schedule")
         if idx % 5 in (0, 4):
             # history: an evaluation of a LOADED archive (SerializedArchiveContext in the broker, components with
@@ -220,7 +234,7 @@ def run(chk):
 
 def replay(data):
     case = data["case"]
-    if case.get("mode") in ("incremental", "pooled"):
+    if case.get("mode") in ("incremental", "pooled", "entry-parallel", "entry-serial"):
         world, seeds, graph = W.rebuild(case)
         if case.get("dropped") is not None:
             graph.pop(world.comps[case["dropped"]], None)
@@ -233,7 +247,7 @@ def replay(data):
         if err:
             print("oracle: raised", repr(err))
         differs = False
-        if case.get("mode") == "pooled" and not err:
+        if case.get("mode") in ("pooled", "entry-parallel", "entry-serial") and not err:
             w2, s2, g2 = W.rebuild(case)
             if case.get("dropped") is not None:
                 g2.pop(w2.comps[case["dropped"]], None)
